@@ -7,7 +7,17 @@ import json
 BASELINE = ("cd /repo && GOFLAGS=-mod=mod GOPROXY=off GOSUMDB=off go test -json -vet=off -count=1 -timeout 25m ./...")
 
 # id -> (level, technique, text, note, design_ref)
+OTHER_NOTE = ("Level 'other': a repository-specific static analysis decides the structural clauses named in the text; each is a necessary condition of the "
+              "property (breaking it breaks behaviour for some input), none is the behavioural property as a whole. Trusted: Go type checker, x/tools v0.29.0 "
+              "(go/packages, go/ssa, VTA), the checker's own CFG construction, the pinned dependency parse/v2 where a rule stops at its API, the tables in checker/internal/ref.")
+
 CLAIMS = {
+ "C01": ("other",
+  "type-switch exhaustiveness, precedence-table agreement with the parser's grammar, save/restore must-pass-through on the CFG, structural recursion of the side-effect predicate, guard-domination of global-name tests, dead-test detection, escape tables",
+  "Decides seven structural necessary conditions of JS behaviour preservation (R01.1-R01.7, DESIGN.md §4 C01): printer exhaustiveness over the parser's node types, "
+  "operator precedence tables vs the grammar extracted from the parser and ECMA-262, restoration of printer context flags on all paths, recursion of hasSideEffects into every "
+  "evaluated operand, global names only assumed when undeclared, consistency of string-literal length tests, regexp escape tables. Does not decide the correctness of the algebraic rewrites.",
+  OTHER_NOTE, "DESIGN.md §4 C01"),
  "C17": ("proof",
   "constant-table evaluation from the type-checked syntax tree, compared entry by entry with reference tables",
   "Every entry of every built-in rewrite table (entities, colours, units, tag/attribute traits, MIME types, perfect-hash files) is evaluated from "
